@@ -83,7 +83,9 @@ SPEC_M = [
         "exit_menu", "exit_app", "get_public_key", "send_command", "sign_unauthorized",
         "_send_data_in_chunks"]),
 ]
-SPEC_M.append(("ledger.hsm2dongle", "HSM2Dongle", ["reset_advance_blockchain"]))
+SPEC_M.append(("ledger.hsm2dongle", "HSM2Dongle", ["reset_advance_blockchain", "sign_authorized"]))
+# functions of the repository that are thin wrappers around a third-party library: pure oracles
+ORACLE_FUNCS = {("comm.bitcoin", "encode_varint")}
 SPEC_M.append(("ledger.protocol", "HSM2ProtocolLedger", [
     "report_comm_issue", "_error", "ensure_connection", "_get_pubkey", "_reset_advance_blockchain"]))
 # attributes of self that hold another translated object: (class, attribute) -> (module, class)
@@ -765,11 +767,32 @@ class FuncTr:
                 return NOTCONST
         return obj
 
+    def name_chain_const(self, e):
+        """ClassName.MEMBER for a class of the module / imported from the repository"""
+        if isinstance(e, ast.Attribute) and isinstance(e.value, ast.Name) and e.value.id != self.selfname:
+            obj = getattr(self.m.mod, e.value.id, NOTCONST)
+            if isinstance(obj, type):
+                return getattr(obj, e.attr, NOTCONST)
+        return NOTCONST
+
+    def enum_obj(self, m_):
+        fields = [("value", m_.value)] + [(k_, v_) for k_, v_ in sorted(vars(m_).items()) if not k_.startswith("_")]
+        parts = []
+        for k_, v_ in fields:
+            c = const_val(v_)
+            need(c is not None, "enum member field %s" % k_)
+            parts.append("(%s, %s)" % (coq_string(k_), c))
+        return '(VObj %s [%s])' % (coq_string(type(m_).__name__), "; ".join(parts))
+
     def value_of(self, e):
         """Text of type pv if e is a value needing no evaluation (constant, variable, type name)."""
         if isinstance(e, ast.Attribute):
             import enum
             obj = self.chain_const(e)
+            if obj is NOTCONST:
+                obj = self.name_chain_const(e)
+                if obj is not NOTCONST and isinstance(obj, enum.Enum) and not isinstance(obj.value, int):
+                    return self.enum_obj(obj)
             if obj is not NOTCONST:
                 if isinstance(obj, enum.Enum) and isinstance(obj.value, int):
                     return const_val(int(obj.value))
@@ -827,6 +850,10 @@ class FuncTr:
             fn = {ast.In: "py_in", ast.NotIn: "py_not_in", ast.Eq: "py_eq", ast.NotEq: "py_ne",
                   ast.Lt: "py_cmp CLt", ast.LtE: "py_cmp CLe", ast.Gt: "py_cmp CGt", ast.GtE: "py_cmp CGe"}.get(type(op))
             need(fn, "comparison operator", e)
+            if isinstance(op, (ast.Eq, ast.NotEq)) and any((self.value_of(x) or "").startswith("(VObj ") for x in (a, b)):
+                if isinstance(op, ast.Eq):
+                    return self.binds([a, b], lambda n: "vbool (py_eq_obj %s %s)" % (n[0], n[1]))
+                return self.binds([a, b], lambda n: "vbool (pmap negb (py_eq_obj %s %s))" % (n[0], n[1]))
             return self.binds([a, b], lambda n: "vbool (%s %s %s)" % (fn, n[0], n[1]))
         if isinstance(e, ast.IfExp):
             return "pif (%s) (%s) (%s)" % (self.expr(e.test), self.expr(e.body), self.expr(e.orelse))
@@ -1140,6 +1167,11 @@ class FuncTr:
             if n in self.m.imports:
                 mod2, name2 = self.m.imports[n]
                 m2 = module(mod2)
+                if name2 in m2.funcs and (mod2, name2) in ORACLE_FUNCS:
+                    if "call_method_" not in self.extra_params:
+                        self.extra_params.append("call_method_")
+                    return self.binds(list(e.args), lambda a: self.L("call_method_ %s VNone [%s]" % (
+                        coq_string(name2), "; ".join(a))))
                 if name2 in m2.funcs:
                     fn = self.G().function(mod2, name2)
                     args = self.resolve_callee_args(m2.funcs[name2], e, False)
@@ -1170,6 +1202,13 @@ class FuncTr:
             if isinstance(f.value, ast.Name) and f.value.id == "str" and f.attr == "isdecimal" and len(e.args) == 1:
                 return self.binds(e.args, lambda a: "py_isdecimal %s" % a[0])
             # methods on values
+            if f.attr == "to_bytes" and len(e.args) == 1:
+                kw = {k_.arg: k_.value for k_ in e.keywords}
+                need(set(kw) <= {"byteorder", "signed"} and isinstance(kw.get("byteorder"), ast.Constant)
+                     and kw["byteorder"].value == "little"
+                     and ("signed" not in kw or (isinstance(kw["signed"], ast.Constant) and kw["signed"].value is False)),
+                     "to_bytes options", e)
+                return self.binds([f.value, e.args[0]], lambda a: "py_to_bytes_le %s %s" % (a[0], a[1]))
             if f.attr == "hex" and not e.args and not e.keywords:
                 return self.binds([f.value], lambda a: "py_hex %s" % a[0])
             if f.attr == "encode" and len(e.args) == 1 and isinstance(e.args[0], ast.Constant) \
